@@ -120,6 +120,17 @@ class AugmentedFlowProposal(FlowProposal):
 
         return x_prime, log_J
 
+    def inverse_rescale(self, x_prime, **kwargs):
+        """Rescale from the prime space to the physical space.
+
+        Calls the method from the parent class and then copies the augment
+        parameters, which are the same in both spaces.
+        """
+        x, log_J = super().inverse_rescale(x_prime, **kwargs)
+        for an in self.augment_parameters:
+            x[an] = x_prime[an]
+        return x, log_J
+
     def augmented_prior(self, x):
         """
         Log Gaussian for augmented variables.
